@@ -51,6 +51,16 @@ def run(ctx):
     if names:
         a3 = ["-corpus", "examples,dir:" + gdir, "-mode", "repeat", "-repeats", "60" if thorough else "25", "-oblig", "c03", "-checkers", ",".join(names)]
         runs.append(("map emitters", a3, None))
+    # the order in which the files of a package were registered with the FileSet (go/packages parses them concurrently, so the
+    # order of their position bases is a matter of scheduling) must not matter
+    fo = ctx.path("fsetorder.json")
+    ctx.run_vh(["fsetorder", "-dir", gdir, "-out", fo], timeout=1800)
+    fres = json.load(open(fo))
+    if fres["packages"] < 3:
+        raise vlib.Infra("fsetorder: only %d multi-file packages in the corpus" % fres["packages"])
+    for m in fres["mismatches"] or []:
+        ctx.fail("FileSetOrder %s" % m["checker"], "%s reports different diagnostics for package %s when its files are registered with the FileSet in the opposite order: %s vs %s"
+                 % (m["checker"], m["pkg"], (m["forward"] or [])[:3], (m["backward"] or [])[:3]), {"mismatch": m})
     events = states = checks = nontriv = 0
     first_trace = None
     for tag, args, cwd in runs:
